@@ -500,7 +500,7 @@ def _deref_expr_ok(em, f, cfg, retnode, e, depth=0):
                 return True, 'atomic self'
             # a variable: must be on the unbound path
             for t, lab in tests:
-                ul = em.cell().unbound_label(t.ast, 'self')
+                ul = em.cell().unbound_label(t.ast, 'self', f)
                 if ul is not None and ul == lab:
                     return True, 'self on the unbound path'
             return False, 'self returned although it may be bound / has parts'
